@@ -763,6 +763,11 @@ impl Router {
                             ackslog.unsuback(unsuback);
                             self.scheduler.untrack(id, filter);
                             self.datalog.remove_waiters_for_id(id, filter);
+                            // a publish earlier in this batch may already have moved the parked
+                            // request to `notifications`; drop it there too, otherwise it is
+                            // tracked again after the batch and the subscription lives on
+                            self.notifications
+                                .retain(|(cid, request)| !(*cid == id && &request.filter == filter));
                             force_ack = true;
                         }
                     }
